@@ -370,6 +370,7 @@ class Database:
                 offsetGroupName = getH5GroupName(offsetCycle, node)
                 dbIn.copy(getH5GroupName(cycle, node), dbOut, name=offsetGroupName)
                 dbOut[offsetGroupName + "/Reactor/cycle"][()] = offsetCycle
+                dbOut[offsetGroupName].attrs["cycle"] = offsetCycle
 
         return backupDBPath
 
